@@ -38,6 +38,16 @@ struct Mon {
    void V(const std::string & s) {if (violations.size() < 5) violations.push_back(s);}
 };
 static Mon M;
+// what the harness itself did through the public API (no events of the code involved): the property is judged on this; where the code's own
+// Enqueue events disagree with it, that is drift
+#include <atomic>
+struct Api {
+   std::vector<uint32> ownerSent, senderSent; std::vector<long> senderEnd; std::atomic<long> clock; std::atomic<long> lastShutBegin; std::atomic<bool> shutBegan; std::vector<std::string> drifts;
+   Api() : clock(0), lastShutBegin(0), shutBegan(false) {}
+   void Reset() {ownerSent.clear(); senderSent.clear(); senderEnd.clear(); clock = 0; lastShutBegin = 0; shutBegan = false; drifts.clear();}
+   void OwnerShutdownBegins() {lastShutBegin = ++clock; shutBegan = true;}
+};
+static Api A;
 static thread_local uint32 tl_curMsg = 0;     // the Message the calling thread is sending (0 = NULL)
 
 static const uint64 FAR_FUTURE = ((uint64)1)<<60;   // "timed": a real deadline that never passes by itself; the scheduler decides when it fires
@@ -144,14 +154,14 @@ static void OwnerMain()
    std::mt19937 gen(g_plan.rnd);
    for (int round=1; round<=g_plan.rounds; round++) {
       int sent = 0;
-      if (round == 1) for (; sent<g_plan.preSends; sent++) {const uint32 m = 10+sent+1; tl_curMsg = m; TL("OSend", 'O', -1, m); (void) g_t->SendMessageToInternalThread(GetMessageFromPool(m)); vs::OpBoundary();}
+      if (round == 1) for (; sent<g_plan.preSends; sent++) {const uint32 m = 10+sent+1; tl_curMsg = m; A.ownerSent.push_back(m); TL("OSend", 'O', -1, m); (void) g_t->SendMessageToInternalThread(GetMessageFromPool(m)); vs::OpBoundary();}
 #ifndef VERIF_NO_PRIVATE
       TL("OStart", 'O', -1, g_t->_threadData[Thread::MESSAGE_THREAD_INTERNAL]._messages.HasItems() ? 1 : 0);
 #endif
       if (g_t->StartInternalThread().IsError()) M.V("StartInternalThread failed");
       vs::OpBoundary();
       while (sent < g_plan.nMsgs) {
-         const uint32 m = round*10+sent+1; sent++; tl_curMsg = m; TL("OSend", 'O', -1, m);
+         const uint32 m = round*10+sent+1; sent++; tl_curMsg = m; A.ownerSent.push_back(m); TL("OSend", 'O', -1, m);
          (void) g_t->SendMessageToInternalThread(GetMessageFromPool(m)); vs::OpBoundary();
          const int k = (int)(gen()%(g_plan.ownerTimed ? 4 : 3));
          if (k == 0) {DrainReplies(0); vs::OpBoundary();}
@@ -159,7 +169,7 @@ static void OwnerMain()
          else if (k == 3) {DrainReplies(2); vs::OpBoundary();}
       }
       if (gen()%2) while (NonNullSent() > M.replies.size()) {DrainReplies(((g_plan.ownerTimed)&&(gen()%2)) ? 2 : 1); vs::OpBoundary();}    // sometimes wait for all replies before shutting down
-      tl_curMsg = 0;
+      tl_curMsg = 0; A.OwnerShutdownBegins();
       if (gen()%3 == 0) {
          // the two-call form: ask the thread to quit now, collect it later
          TL("OShutdownNoWait", 'O', -1); g_t->ShutdownInternalThread(false); vs::OpBoundary();
@@ -182,9 +192,11 @@ static void SenderMain()
    vs::ThreadBegin();
    for (int k=0; k<g_plan.nExtra; k++) {
       vs::OpBoundary();
-      if (M.nullQueued) break;      // the property is about Messages sent before the shutdown request
+      if (A.shutBegan) break;      // the property is about Messages sent before the shutdown request
       const uint32 m = 50+k+1; tl_curMsg = m; TL("SSend", 'S', -1, m);
+      A.senderSent.push_back(m);
       (void) g_t->SendMessageToInternalThread(GetMessageFromPool(m));
+      A.senderEnd.push_back(++A.clock);
    }
    vs::ThreadEnd();
 }
@@ -192,14 +204,30 @@ static void SenderMain()
 static void Judge()
 {
    char b[256];
-   // exactly once, in order: the handler saw exactly the non-NULL Messages enqueued before the (last) NULL, in enqueue order
+   // ---- the property at the level of the public API: what the owner / the extra sender passed to SendMessageToInternalThread(), what the
+   // handler was given, what GetNextReplyFromInternalThread() returned
+   std::set<uint32> fromSender(A.senderSent.begin(), A.senderSent.end()), seen;
+   std::vector<uint32> hOwner, hSender;
+   for (size_t i=0; i<M.handled.size(); i++) {
+      const uint32 m = M.handled[i];
+      if (!seen.insert(m).second) {snprintf(b, sizeof(b), "Message %u was handed to the internal thread's handler twice", m); M.V(b);}
+      if (fromSender.count(m)) hSender.push_back(m); else hOwner.push_back(m);
+   }
+   // every Message the owner sent precedes its own shutdown request of that round: all of them are handled, in the order sent
+   if (hOwner != A.ownerSent) { snprintf(b, sizeof(b), "the owner sent %zu Messages before its shutdown requests, the handler was given %zu of its Messages (first difference at position %zu): lost, duplicated or out of order", A.ownerSent.size(), hOwner.size(), (size_t) (std::mismatch(hOwner.begin(), hOwner.begin()+std::min(hOwner.size(), A.ownerSent.size()), A.ownerSent.begin()).first-hOwner.begin())); M.V(b); }
+   // the other sender's Messages: in its order, without gaps (the queue is FIFO), and at least those whose send call had returned before the owner began its last shutdown request
+   size_t must = 0; for (size_t i=0; i<A.senderEnd.size(); i++) if (A.senderEnd[i] < A.lastShutBegin.load()) must = i+1;
+   const bool prefix = (hSender.size() <= A.senderSent.size())&&(std::equal(hSender.begin(), hSender.end(), A.senderSent.begin()));
+   if (!prefix) M.V("the second sender's Messages were handled out of order or with a gap");
+   else if (hSender.size() < must) { snprintf(b, sizeof(b), "%zu Messages of the second sender had been sent (the call had returned) before the owner began its last shutdown request, only %zu were handled", must, hSender.size()); M.V(b); }
+   std::vector<uint32> expReplies; for (size_t i=0; i<M.handled.size(); i++) expReplies.push_back(M.handled[i]+100);
+   if (M.replies != expReplies) { snprintf(b, sizeof(b), "owner received %zu replies, expected %zu in handling order", M.replies.size(), expReplies.size()); M.V(b); }
+   // ---- the same through the code's own Enqueue events (exact about sends that overlap the shutdown request); on their own they are drift
    std::vector<uint32> expect; size_t lastNull = 0; bool anyNull = false;
    for (size_t i=0; i<M.enqInt.size(); i++) if (M.enqInt[i] == 0) {lastNull = i; anyNull = true;}
    for (size_t i=0; i<M.enqInt.size(); i++) if ((M.enqInt[i])&&((!anyNull)||(i < lastNull))) expect.push_back(M.enqInt[i]);
-   if (M.handled != expect) { snprintf(b, sizeof(b), "internal thread handled %zu Messages, %zu were queued before the shutdown request (first difference at %zu)", M.handled.size(), expect.size(), (size_t) (std::mismatch(M.handled.begin(), M.handled.begin()+std::min(M.handled.size(), expect.size()), expect.begin()).first-M.handled.begin())); M.V(b); }
-   std::vector<uint32> expReplies; for (size_t i=0; i<M.handled.size(); i++) expReplies.push_back(M.handled[i]+100);
-   if (M.enqOwn != expReplies) M.V("replies were not queued once each in the order the Messages were handled");
-   if (M.replies != expReplies) { snprintf(b, sizeof(b), "owner received %zu replies, expected %zu in handling order", M.replies.size(), expReplies.size()); M.V(b); }
+   if (M.handled != expect) { snprintf(b, sizeof(b), "internal thread handled %zu Messages, the code's Enqueue events say %zu were queued before the shutdown request (first difference at %zu)", M.handled.size(), expect.size(), (size_t) (std::mismatch(M.handled.begin(), M.handled.begin()+std::min(M.handled.size(), expect.size()), expect.begin()).first-M.handled.begin())); if (M.violations.empty()) A.drifts.push_back(b); else M.V(b); }
+   if (M.enqOwn != expReplies) { if (M.violations.empty()) A.drifts.push_back("the code's Enqueue events for replies do not list one reply per handled Message in handling order"); else M.V("replies were not queued once each in the order the Messages were handled"); }
 }
 
 // ------------------------------------------------------------------------------------------------------
@@ -283,10 +311,10 @@ static void FreeOwner()
    long sentTotal = 0;
    for (int round=1; round<=FP.rounds; round++) {
       int sent = 0;
-      if (round == 1) for (; sent<FP.preSends; sent++) {const uint32 m = 1000+sent+1; tl_curMsg = m; (void) f_t->SendMessageToInternalThread(GetMessageFromPool(m)); sentTotal++;}
+      if (round == 1) for (; sent<FP.preSends; sent++) {const uint32 m = 1000+sent+1; tl_curMsg = m; A.ownerSent.push_back(m); (void) f_t->SendMessageToInternalThread(GetMessageFromPool(m)); sentTotal++;}
       if (f_t->StartInternalThread().IsError()) FV("StartInternalThread failed");
       while (sent < FP.nMsgs) {
-         const uint32 m = round*1000+sent+1; sent++; tl_curMsg = m; (void) f_t->SendMessageToInternalThread(GetMessageFromPool(m)); sentTotal++;
+         const uint32 m = round*1000+sent+1; sent++; tl_curMsg = m; A.ownerSent.push_back(m); (void) f_t->SendMessageToInternalThread(GetMessageFromPool(m)); sentTotal++;
          const uint32 k = FR()%8;
          if (k == 0) FreeTake(0);
          else if ((k == 1)&&(sentTotal > (long) M.replies.size())) FreeTake((FR()%2) ? 1 : 3);
@@ -295,7 +323,7 @@ static void FreeOwner()
          else if ((k == 4)&&(FP.signals)&&(f_handledN.load() > 0)) {const unsigned long tid = f_itid.load(); if (tid) (void) pthread_kill((pthread_t) tid, SIGUSR1);}    // the thread is alive: it is joined only below, by us
       }
       if (FR()%2) while (sentTotal > (long) M.replies.size()) FreeTake(1+(int)(FR()%3));
-      tl_curMsg = 0;
+      tl_curMsg = 0; A.OwnerShutdownBegins();
       if (FR()%3 == 0) {f_t->ShutdownInternalThread(false); if (FR()%2) FreeTake(0); (void) f_t->WaitForInternalThreadToExit();}
       else f_t->ShutdownInternalThread(true);
       f_progress++;
@@ -306,9 +334,11 @@ static void FreeOwner()
 static void FreeSender()
 {
    for (int k=0; k<FP.nExtra; k++) {
-      if (M.nullQueued) break;
+      if (A.shutBegan) break;
       const uint32 m = 500000+k+1; tl_curMsg = m;
+      A.senderSent.push_back(m);
       (void) f_t->SendMessageToInternalThread(GetMessageFromPool(m));
+      A.senderEnd.push_back(++A.clock);
       if ((k%4) == 0) std::this_thread::yield();
    }
 }
@@ -321,7 +351,7 @@ static int Free(uint32 iters, uint32 seed0, bool sockets, const char * outFile)
    for (uint32 it=0; (it<iters)&&(violated < 6)&&(hung == 0); it++) {
       const uint32 seed = seed0*1000003u+it; std::mt19937 gen(seed*2654435761u+11);
       FP.rounds = 1+(int)(gen()%2); FP.nMsgs = 1+(int)(gen()%60); FP.preSends = (int)(gen()%4) % (FP.nMsgs+1); FP.nExtra = (int)(gen()%3)*20; FP.timedLoop = (gen()%3) == 0; FP.signals = (sockets)&&((gen()%2) == 0); FP.rnd = gen();
-      M.Reset(); f_progress = 0; f_done = false; f_itid = 0; f_handledN = 0; f_nonEmptySince[0] = 0; f_nonEmptySince[1] = 0;
+      M.Reset(); A.Reset(); f_progress = 0; f_done = false; f_itid = 0; f_handledN = 0; f_nonEmptySince[0] = 0; f_nonEmptySince[1] = 0;
       f_t = new FreeEchoThread(sockets, FP.timedLoop);
       std::thread owner(FreeOwner); std::thread sender; if (FP.nExtra > 0) sender = std::thread(FreeSender);
       long last = -1; int idle = 0;
@@ -355,7 +385,7 @@ int main(int argc, char ** argv)
    if ((argc < 6)||(strcmp(argv[1], "explore"))) {fprintf(stderr, "usage: th explore <iters> <seed> <sockets 0|1> <report> [trace [n]]\n"); return 2;}
    const uint32 iters = (uint32) atol(argv[2]), seed0 = (uint32) atol(argv[3]); const bool sockets = atoi(argv[4]) != 0;
    FILE * out = fopen(argv[5], "w"); FILE * tf = (argc > 6) ? fopen(argv[6], "w") : NULL; const uint32 ntraces = (argc > 7) ? (uint32) atol(argv[7]) : 50;
-   long execs = 0, violated = 0, stranded = 0, nevents = 0, tracesWritten = 0, traceLines = 0; unsigned long ysteps = 0; std::set<std::string> distinct;
+   long execs = 0, violated = 0, stranded = 0, nevents = 0, tracesWritten = 0, traceLines = 0, ndrift = 0; unsigned long ysteps = 0; std::set<std::string> distinct;
    for (uint32 it=0; it<iters; it++) {
       const uint32 seed = seed0*1000003u+it; std::mt19937 gen(seed*2654435761u+7);
       g_plan.nMsgs = 1+(int)(gen()%3); g_plan.preSends = (int)(gen()%3) % (g_plan.nMsgs+1); g_plan.rounds = 1+(int)(gen()%2); g_plan.nExtra = (int)(gen()%3); g_plan.rnd = gen();
@@ -369,7 +399,7 @@ int main(int argc, char ** argv)
       vs::Reset(seed, vs::RANDOM); vs::S.onEvent = ObserveEvent; vs::S.onYield = ObserveYield; vs::S.onResume = ObserveResume; vs::S.onTimeout = ObserveTimeout; vs::S.stickiness = (int)(gen()%3)*35;
       vs::S.timeoutsWhenStuckOnly = g_plan.stuckOnly; vs::S.intrBudget = g_plan.intr; vs::S.intrOneIn = 4;
       vs::S.atomicLocks = g_record;   // recorded executions keep queue critical sections atomic, as the specification does
-      M.Reset();
+      M.Reset(); A.Reset();
       std::vector<std::thread> ths;
       ths.emplace_back(OwnerMain); vs::WaitRegistered(1); g_ownerTid = 0; g_senderTid = -1;
       if (g_plan.nExtra > 0) {ths.emplace_back(SenderMain); vs::WaitRegistered(2); g_senderTid = 1;}
@@ -377,6 +407,7 @@ int main(int argc, char ** argv)
       execs++; ysteps += vs::S.steps; nevents += (long) vs::S.events.size();
       if (!ok) {stranded++; M.V(std::string("STRANDED (lost wake-up or shutdown that does not complete): no thread can run:")+vs::S.blockedDesc);}
       else Judge();
+      if ((M.violations.empty())&&(!A.drifts.empty())&&(ndrift++ < 3)) {mj::Value rec = mj::Value::Obj(); rec.set("seed", mj::Value::Int(seed)).set("iteration", mj::Value::Int(it)); mj::Value da = mj::Value::Arr(); for (size_t k=0; k<A.drifts.size(); k++) da.push(mj::Value::Str(A.drifts[k])); rec.set("monitor_drift", da); fprintf(out, "%s\n", mj::ToString(rec).c_str());}
       if (!M.violations.empty()) {
          violated++;
          mj::Value rec = mj::Value::Obj(); rec.set("seed", mj::Value::Int(seed)).set("iteration", mj::Value::Int(it)).set("sockets", mj::Value::Bool(sockets));
